@@ -32,6 +32,10 @@
 //   iop k a.. b.. (12 ints)         matrix3x2<long>: k = m: a * b; k = e: m = a; m *= b; k = s: m = a; m *= m (b ignored): 6 integers
 //   resc vt s w h dw dh n M1..Mn    m = identity; m *= Mi/8 (6n integers: entries are k/8) for i = 1..n; resample_pixels(src, dst, m): dst dump `|` direct loop
 //                                   (every sample point lies on the 1/8^n grid: exact)
+//   resrt vt w h dw dh n M1..Mn     INTEGER matrices (6n integers, product unimodular): m = identity; m *= Mi; resample_pixels(src, dst, m, nearest), then
+//                                   resample_pixels(dst, src2, inverse(m), nearest): dst dump `|` src2 dump (pixels whose preimage lies in dst must be the source pixels again)
+//   rescs vt s w h dw dh n M1..Mn   as resc, followed by the self multiplication m *= m before resample_pixels (grid 1/8^(2n))
+//   fop k a.. b.. (12 binary32)     matrix3x2<float>: k = m: a * b; k = e: m = a; m *= b; k = s: m = a; m *= m; k = i: inverse(a); k = t: transform(a, point<float>(b.a, b.b)): binary32 bit patterns
 //   resmf vt s w h dw dh n M1..Mn   the same with arbitrary double matrices (6n bit patterns): the 6 bit patterns of m, `|`, dst dump, `|`, direct loop
 //   F = f|d (point<float> / point<double>);  vt = g8 rgb8 rgb8p g16 g8s g32f sub (subsampled rgb8, step 2) trn (transposed g16)
 #include <boost/gil.hpp>
@@ -174,6 +178,17 @@ std::string resm(ptrdiff_t w, ptrdiff_t h, ptrdiff_t dw, ptrdiff_t dh, gil::matr
     for (ptrdiff_t y = 0; y < dh; ++y) for (ptrdiff_t x = 0; x < dw; ++x)
         gil::sample(Sampler{}, s.v, gil::transform(mat, gil::point_t(x, y)), v2(x, y));
     return dump(gil::const_view(d1)) + " | " + dump(gil::const_view(d2));
+}
+template <typename Src>
+std::string resrt(ptrdiff_t w, ptrdiff_t h, ptrdiff_t dw, ptrdiff_t dh, gil::matrix3x2<double> const& mat) {
+    Src s(w, h);
+    using pixel_t = typename Src::pixel_t;
+    using img_t = gil::image<pixel_t, false>;
+    img_t d1(dw, dh), s2(w, h);
+    gil::fill_pixels(gil::view(d1), sentinel<pixel_t>()); gil::fill_pixels(gil::view(s2), sentinel<pixel_t>());
+    gil::resample_pixels(s.v, gil::view(d1), mat, gil::nearest_neighbor_sampler{});
+    gil::resample_pixels(gil::const_view(d1), gil::view(s2), gil::inverse(mat), gil::nearest_neighbor_sampler{});
+    return dump(gil::const_view(d1)) + " | " + dump(gil::const_view(s2));
 }
 template <typename Src, typename Sampler>
 std::string resg(ptrdiff_t w, ptrdiff_t h, ptrdiff_t dw, ptrdiff_t dh, float const* m) {
@@ -376,13 +391,33 @@ static std::string handle_op(std::string const& line) {
             else return "bad-op";
             return std::to_string(r.a) + " " + std::to_string(r.b) + " " + std::to_string(r.c) + " " + std::to_string(r.d) + " " + std::to_string(r.e) + " " + std::to_string(r.f);
         }
-        if (w.size() >= 8 && (w[0] == "resc" || w[0] == "resmf") && w.size() == 8 + 6 * (size_t)I(7)) {
+        if (w.size() >= 7 && w[0] == "resrt" && w.size() == 7 + 6 * (size_t)I(6)) {
+            gil::matrix3x2<double> m;
+            for (long k = 0; k < I(6); ++k) { size_t o = 7 + 6 * (size_t)k; m *= gil::matrix3x2<double>((double)I(o), (double)I(o + 1), (double)I(o + 2), (double)I(o + 3), (double)I(o + 4), (double)I(o + 5)); }
+#define X(name, S) if (w[1] == name) return resrt<S>(I(2), I(3), I(4), I(5), m);
+            SRCS(X)
+#undef X
+        }
+        if (w.size() == 14 && w[0] == "fop") {
+            auto f_of = [&](size_t i) { uint32_t u = (uint32_t)hv::to_ull(w[i]); float f; std::memcpy(&f, &u, 4); return f; };
+            auto fb = [](float f) { uint32_t u; std::memcpy(&u, &f, 4); return std::to_string(u); };
+            gil::matrix3x2<float> a(f_of(2), f_of(3), f_of(4), f_of(5), f_of(6), f_of(7)), b(f_of(8), f_of(9), f_of(10), f_of(11), f_of(12), f_of(13)), r;
+            if (w[1] == "m") r = a * b;
+            else if (w[1] == "e") { r = a; r *= b; }
+            else if (w[1] == "s") { r = a; r *= r; }
+            else if (w[1] == "i") r = gil::inverse(a);
+            else if (w[1] == "t") { auto p = gil::transform(a, gil::point<float>(b.a, b.b)); return fb(p.x) + " " + fb(p.y); }
+            else return "bad-op";
+            return fb(r.a) + " " + fb(r.b) + " " + fb(r.c) + " " + fb(r.d) + " " + fb(r.e) + " " + fb(r.f);
+        }
+        if (w.size() >= 8 && (w[0] == "resc" || w[0] == "rescs" || w[0] == "resmf") && w.size() == 8 + 6 * (size_t)I(7)) {
             gil::matrix3x2<double> m;                       // identity, then the compound operator only
             for (long k = 0; k < I(7); ++k) {
                 size_t o = 8 + 6 * (size_t)k;
-                if (w[0] == "resc") m *= gil::matrix3x2<double>(I(o) / 8.0, I(o + 1) / 8.0, I(o + 2) / 8.0, I(o + 3) / 8.0, I(o + 4) / 8.0, I(o + 5) / 8.0);
+                if (w[0] != "resmf") m *= gil::matrix3x2<double>(I(o) / 8.0, I(o + 1) / 8.0, I(o + 2) / 8.0, I(o + 3) / 8.0, I(o + 4) / 8.0, I(o + 5) / 8.0);
                 else m *= M(o);
             }
+            if (w[0] == "rescs") m *= m;
             std::string pre = w[0] == "resmf" ? show_m(m) + " | " : std::string();
 #define X(name, S) if (w[1] == name) { if (w[2] == "b") return pre + resm<S, gil::bilinear_sampler>(I(3), I(4), I(5), I(6), m); \
                                        return pre + resm<S, gil::nearest_neighbor_sampler>(I(3), I(4), I(5), I(6), m); }
